@@ -225,6 +225,17 @@ func H_C19_stored() {
 		root = NewObject("in", pl, "io", po)
 		lp, op = ".in", ".io"
 	}
+	// every way a derived value can get into a container stores the value itself
+	viaOf := NewListOf(dl, 3)
+	viaFrom := NewListFrom([]any{do, dl})
+	viaObjFrom := NewObjectFrom(map[string]any{"d": do})
+	viaIns := NewList(1, 2).Insert(1, do).Replace(0, dl).Add(do)
+	viaTF := NewObject().SetTF(".a#1", dl).SetTF(".b.c", do)
+	vok := viaOf.Get(0) == any(dl) && viaOf.Get(1) == any(dl) && viaOf.GetList(2) == dl
+	vok = vok && viaFrom.GetObject(0) == do && viaFrom.GetList(1) == dl && viaObjFrom.GetObject("d") == do
+	vok = vok && viaIns.GetList(0) == dl && viaIns.GetObject(1) == do && viaIns.GetObject(3) == do
+	vok = vok && viaTF.GetTF(".a#1") == any(dl) && viaTF.GetTF(".b.c") == any(do)
+	verifAssert(vok, "a derived value stored through any constructor or mutator (NewListOf, NewListFrom, NewObjectFrom, Insert, Replace, Add, SetTF) is handed back as the identical outer value")
 	ok := true
 	ok = ok && pl.Get(1) == any(dl) && pl.Get(2) == any(do)
 	ok = ok && pl.GetList(1) == dl && pl.GetObject(2) == do
